@@ -1010,7 +1010,9 @@ class Emitter:
                 if ch.get('kind') not in ('CXXConstructExpr', 'InitListExpr', 'ImplicitValueInitExpr'):
                     size = ch
                     break
-            return '((%s)__verif_new_array(sizeof(%s), %s))' % (c, elem, self.expr(size, ctx))
+            # `new T[n]()` value-initialises (zeroes) the elements, `new T[n]` leaves scalars uninitialised
+            zero = any(ch.get('kind') in ('InitListExpr', 'ImplicitValueInitExpr') for ch in n.get('inner', []))
+            return '((%s)%s(sizeof(%s), %s))' % (c, '__verif_new_array_zero' if zero else '__verif_new_array', elem, self.expr(size, ctx))
         ctor = [ch for ch in n.get('inner', []) if ch.get('kind') == 'CXXConstructExpr']
         if ctor and not self.T.is_scalar(elem) and elem not in ('mpz_t', '__mpz_struct'):
             # new Class(args): allocation + constructor, provided as Class__new_k by the group (malloc + extracted ctor)
